@@ -228,3 +228,106 @@ def r9_8(prog, chk):
                            "has rows x columns values (inconsistent object / out-of-range access when it is used)" % show(c)[:40],
                            key="R9.8|%s|%s vs %s" % (f.name, l["n"], show(r)[:20]))
     chk.floor("R9.8", n, 2)
+
+
+# readers that hand a table back through (data vector, counts) out-parameters: name -> (vector parameter, count variables)
+TABLE_READERS = {"csv_table_read": ("tab", ("ncol", "nrow"))}
+
+
+def r9_9(prog, chk):
+    """R9.9 - a reader that returns a table as a vector plus its numbers of rows and columns reports success only after it has
+    compared the size of the vector with rows x columns: its callers build objects from the three values without looking again
+    (a file cut inside a row otherwise yields an inconsistent table: exception in the Db construction, out-of-range reads)."""
+    from e1_paths import CFG
+    n = 0
+    for name, (vec, counts) in sorted(TABLE_READERS.items()):
+        f = prog.fn(name)
+        chk.analysed(f)
+        g = CFG(f)
+        guards = set()
+        for b, blk in g.blocks.items():
+            if len(blk["s"]) != 2 or blk.get("tc") is None or blk["tc"] < 0:
+                continue
+            cnd = g.nodes.get(blk["tc"])
+            if cnd is None:
+                continue
+            # the whole condition of the statement this block belongs to
+            top = cnd
+            for a in f.ancestors(cnd):
+                if a["k"] in ("BinOp", "UnOp", "Cast"):
+                    top = a
+                else:
+                    break
+            txt_nodes = list(walk(top))
+            has_size = any(y["k"] == "MCall" and (y.get("callee") or "").split("::")[-1] == "size" and call_obj_name(y) == vec for y in txt_nodes)
+            has_counts = all(any(y["k"] == "DeclRefExpr" and y.get("n") == c for y in txt_nodes) for c in counts)
+            if has_size and has_counts:
+                guards.add(b)
+        n += 1
+        ok_ret = lambda x: x["k"] == "Return" and x.get("c") and x["c"][0] is not None and x["c"][0]["k"] == "Int" and x["c"][0]["v"] == 0
+        w = g.search(g.entry_pos(), is_target=ok_ret, edge_ok=lambda blk, k, s_: blk["b"] not in guards)
+        ok = bool(guards) and w is None
+        chk.ob("R9.9", "%s: success is returned only after `%s.size()` was compared with %s" % (name, vec, " x ".join(counts)), f.loc(), ok,
+               detail=None if ok else "a path returns success without relating the number of values read to the announced rows and columns: the callers "
+               "build their object from an inconsistent table", key="R9.9|%s" % name, path=None if ok or w is None else g.describe(w))
+    chk.floor("R9.9", n, 1)
+
+
+def call_obj_name(y):
+    from facts import call_obj
+    o = call_obj(y)
+    while o is not None and o["k"] == "Cast":
+        o = o["c"][0]
+    return o.get("n") if o is not None and o["k"] == "DeclRefExpr" else None
+
+
+def r9_10(prog, chk):
+    """R9.10 - process-wide state of the shared token reader (_record_read: pending line, delimiters).
+      a) a function that opens a file for reading in a class that parses it with the token reader erases the line left pending by
+         the previous read (after a failed read the next valid file would otherwise be parsed from the old line);
+      b) a function that installs custom delimiters puts the default ones back on every exit (directly, or through a local guard
+         object whose destructor does it)."""
+    from e1_paths import CFG
+    n = 0
+    uses_tokens = {f.cls for f in prog.funcs if f.body is not None and f.cls and any((c.get("callee") or "") in ("_record_read", "_file_read") for c in f.calls())}
+    for f in sorted(prog.funcs, key=lambda x: (x.file, x.line)):
+        if f.body is None:
+            continue
+        opens = [c for c in f.calls() if (c.get("callee") or "") == "gslFopen" and len(call_args(c)) >= 2 and
+                 call_args(c)[1] is not None and call_args(c)[1].get("k") == "Str" and "r" in str(call_args(c)[1].get("v"))]
+        if opens and (f.name == "_file_open" or (f.cls and (f.cls in uses_tokens or any(d in uses_tokens for d in prog.derived(f.cls))))):
+            n += 1
+            chk.analysed(f)
+            ok = any((c.get("callee") or "") == "_erase_current_string" for c in f.calls())
+            chk.ob("R9.10", "%s: opening a file for the token reader erases the line left pending by the previous read" % f.name, f.loc(opens[0]), ok,
+                   detail=None if ok else "the token reader keeps its current line in process-wide statics: after a read that failed in the middle of a line the "
+                   "next (valid) file is parsed starting with the rest of that line and refused", key="R9.10|%s|erase" % f.name)
+    DEFAULT = ("#", " ", " ")
+
+    def delim_args(c):
+        out = []
+        for a in call_args(c):
+            while a is not None and a["k"] == "Cast":
+                a = a["c"][0]
+            out.append(None if a is None else (chr(a["v"]) if a["k"] in ("Char", "Int") and isinstance(a.get("v"), int) else a.get("v")))
+        return tuple(out)
+    for f in sorted(prog.funcs, key=lambda x: (x.file, x.line)):
+        if f.body is None:
+            continue
+        customs = [c for c in f.calls() if (c.get("callee") or "") == "_file_delimitors" and delim_args(c) != DEFAULT]
+        if not customs:
+            continue
+        n += 1
+        chk.analysed(f)
+        if f.kind == "ctor":
+            dt = [g for g in prog.funcs if g.cls == f.cls and g.kind == "dtor" and g.body is not None]
+            ok = any((c.get("callee") or "") == "_file_delimitors" and delim_args(c) == DEFAULT for g in dt for c in g.calls())
+            wit = None
+        else:
+            g = CFG(f)
+            wit = g.exit_without(customs[0], lambda y: (y.get("callee") or "") == "_file_delimitors" and y["k"] == "Call" and delim_args(y) == DEFAULT)
+            ok = wit is None
+        chk.ob("R9.10", "%s: the default delimiters of the token reader are put back on every exit" % f.name, f.loc(customs[0]), ok,
+               detail=None if ok else "an exit (a failed read) leaves the custom delimiters installed: the files read afterwards by the other readers are split "
+               "with the wrong separators", key="R9.10|%s|delimiters" % f.name, path=None if ok or wit is None else g.describe(wit))
+    chk.floor("R9.10", n, 2)
